@@ -518,7 +518,7 @@ func boundedFlashDecode(r *Run) {
 					continue
 				}
 				tgt := br.If.Block().Succs[small]
-				if tgt.Dominates(at.Block()) {
+				if dom(tgt, at.Block()) {
 					return true
 				}
 			}
@@ -588,7 +588,7 @@ func boundedFlashDecode(r *Run) {
 				}
 				if dependsOn(b2.Info.Root, func(v ssa.Value) bool { return v == l }) != nil || dependsOn(b2.Info.Other, func(v ssa.Value) bool { return v == l }) != nil {
 					for s := 0; s < 2; s++ {
-						if b2.If.Block().Succs[s].Dominates(br.If.Block()) && !loop[b2.If.Block()] {
+						if dom(b2.If.Block().Succs[s], br.If.Block()) && !loop[b2.If.Block()] {
 							okB = true
 						}
 					}
